@@ -120,10 +120,10 @@ def damp(f, w, dim):
         fac = np.sin(np.pi * np.arange(w) / (2 * w))
         shp = [1] * f.ndim
         shp[ax] = w
-        front_edge = f[sl(slice(w - 1, w))].copy()
-        back_edge = f[sl(slice(n - w, n - w + 1))].copy()
-        f[sl(slice(0, w))] = front_edge
-        f[sl(slice(n - w, n))] = back_edge
+        # the documented sequence per axis: fill the front zone from its inner edge, THEN the back zone from its inner edge (on grids
+        # narrower than two zone widths the second fill sees the first), then the two sine ramps
+        f[sl(slice(0, w))] = f[sl(slice(w - 1, w))].copy()
+        f[sl(slice(n - w, n))] = f[sl(slice(n - w, n - w + 1))].copy()
         f[sl(slice(0, w))] = f[sl(slice(0, w))] * fac.reshape(shp)
         f[sl(slice(n - w, n))] = f[sl(slice(n - w, n))] * fac[::-1].reshape(shp)
     return f
